@@ -10,6 +10,10 @@ neighbour-function object over it, `nodes` handed over as a fresh iterable of a 
 dict-keys view, set, generator, iter(list), range/map) for every call; after the first round of calls 0-2
 generated edits (add an edge from both ends / from one end, remove an edge) are applied in place and the same
 functions are called again with the same function object, judged against the oracle of the edited graph.
+The neighbour function hands out the stored container itself (list / tuple / set / frozenset; or a fresh
+generator), in `shared` mode the identical object for nodes with equal neighbourhoods; each call is judged
+against the graph the containers describe at the moment of the call.  Label schemes include colliding hashes
+(-1/-2, tuples of them, a class with a constant __hash__).
 """
 from __future__ import annotations
 
